@@ -97,6 +97,9 @@ impl ReplDriver {
         self.rec().end();
         ev["jn"] = json!(core.disk.journal_len() - j0);
         ev["leak"] = json!([]);
+        if let Some(js) = crate::checks::js_records(core) {
+            ev["js"] = js;
+        }
         self.rec().count("calls", 1);
         self.rec().emit(ev);
         ret
